@@ -21,6 +21,7 @@
 """
 import json
 import os
+import time
 
 import vlib
 from checks import _ps35 as P
@@ -48,7 +49,8 @@ def run(ctx):
         return
     env = P.driver_env(ctx)
     sweeps = ["vr", "struct"] + ([] if q else ["struct3"])
-    jobs = P.ds_jobs(ctx, sweeps) + [("DataSetWriter", "Gen_DataSetWriter.cfg" if q else "Gen_DataSetWriter_thorough.cfg",
+    # C01 needs Wire and Norm only; the parser obligations (ParseInvertsWire) are checked by C02/C04's runs
+    jobs = [("Gen_DS", "Gen_DS_%s_emit.cfg" % s, ctx.path("cases_%s.ndjson" % s)) for s in sweeps] + [("DataSetWriter", "Gen_DataSetWriter.cfg" if q else "Gen_DataSetWriter_thorough.cfg",
                                       ctx.path("writer_runs.ndjson"))]
     res = P.generate_parallel(ctx, jobs)
     cases = ctx.path("cases.ndjson")
@@ -57,6 +59,7 @@ def run(ctx):
         raise vlib.ToolError("too few cases generated: %d" % n)
     P.sample_cases(ctx, cases)
 
+    vlib.log('[C01] generation done at %.0fs' % (time.time() - ctx.t0))
     # 2. writer machine runs -> real DataSetWriter
     rep_t = vlib.run_driver("drv_dataset", ["tokens", "--cases", jobs[-1][2], "--out", ctx.path("tok")], env=env, timeout=3000)
     kinds = rep_t["token_kinds"]
@@ -74,6 +77,7 @@ def run(ctx):
                  "level by Trace_PS35); first: %s" % (rep_t["drift"], json.dumps(rep_t["drift_first"])[:500]))
         P.validate(ctx, "Trace_PS35", rep_t["streams_path"], "writer runs differing from the model")
 
+    vlib.log('[C01] writer runs replayed at %.0fs' % (time.time() - ctx.t0))
     # 3. cases -> InMemDicomObject write / read
     rep = vlib.run_driver("drv_dataset", ["replay", "--cases", cases, "--out", ctx.path("replay"), "--props", "C01"],
                           env=env, timeout=3000)
@@ -89,6 +93,7 @@ def run(ctx):
         ctx.note("drift: %d written streams differ in bytes from PS35!Wire while the round trip holds (length modes; "
                  "C04 judges their validity); first via %s on %s" % (rep["drift"], d.get("via"), d.get("shape")))
 
+    vlib.log('[C01] cases replayed at %.0fs' % (time.time() - ctx.t0))
     # 4. random larger data sets, judged by TLC
     rr = vlib.run_driver("drv_dataset", ["random", "--n", 240 if q else 4000, "--out", ctx.path("random")], env=env, timeout=3000)
     ctx.cov["evaluations"] += rr["cases"]
